@@ -100,7 +100,7 @@ pub(crate) fn assert_farm_asset(
         .find(|sent| sent.denom == params.farm_asset.denom)
         .ok_or(ContractError::AssetMismatch)?;
 
-    if farm_creation_fee.denom != params.farm_asset.denom {
+    if farm_creation_fee.denom != params.farm_asset.denom && !farm_creation_fee.amount.is_zero() {
         ensure!(
             coin_sent.amount == params.farm_asset.amount,
             ContractError::AssetMismatch
